@@ -1,0 +1,30 @@
+//! Verification-only hooks, compiled only with the `verif_hooks` feature.
+//! Nothing here is used by the library itself.
+
+pub use crate::packet::{Packet, Payload, SerializationError, Slice, SLICE_SIZE};
+
+/// Decode a serialized renet packet with the crate's own decoder.
+pub fn decode_packet(bytes: &[u8]) -> Result<Packet, SerializationError> {
+    let mut octets = octets::Octets::with_slice(bytes);
+    Packet::from_bytes(&mut octets)
+}
+
+/// Encode a renet packet with the crate's own encoder into a fresh buffer of `cap` bytes.
+pub fn encode_packet(packet: &Packet, cap: usize) -> Result<Vec<u8>, SerializationError> {
+    let mut buffer = vec![0u8; cap];
+    let len = {
+        let mut oct = octets::OctetsMut::with_slice(&mut buffer);
+        packet.to_bytes(&mut oct)?
+    };
+    buffer.truncate(len);
+    Ok(buffer)
+}
+
+/// State of one unacknowledged reliable message on the send side.
+#[derive(Debug, Clone, PartialEq, Eq)]
+pub struct UnackedInfo {
+    pub message_id: u64,
+    pub len: usize,
+    /// Empty for small messages, one flag per slice otherwise.
+    pub acked_slices: Vec<bool>,
+}
